@@ -192,7 +192,8 @@ def model_tree(t, opid):
 def rich_schema(r, k, trees):
     name = "pp_%d" % k
     L = ["SCHEMA %s;" % name, "CONSTANT", "  c_int : INTEGER := 5;", "  c_real : REAL := 1.5E2;", "  c_str : STRING := 'it''s';",
-         "  c_bin : BINARY := %1011;", "  c_log : LOGICAL := UNKNOWN;", "  c_agg : LIST [0:?] OF INTEGER := [0 : 3, 1, 2];", "END_CONSTANT;", ""]
+         "  c_bin : BINARY := %1011;", "  c_log : LOGICAL := UNKNOWN;", "  c_agg : LIST [0:?] OF INTEGER := [0 : 3, 1, 2];",
+         "  c_rep : LIST [0:?] OF INTEGER := [7 : 1, 1, 0, 1, 0 : 2];", "END_CONSTANT;", ""]
     L += ["TYPE small = INTEGER;", "WHERE", "  wr1 : {0 <= SELF < 100};", "  SELF <> 13;", "END_TYPE;  -- tail remark small", ""]
     L += ["TYPE colour = ENUMERATION OF (red, green, blue);", "END_TYPE;", ""]
     L += ["ENTITY base_e", "  ABSTRACT SUPERTYPE OF (ONEOF (left_e, right_e) ANDOR extra_e);", "  x : INTEGER;", "  y : INTEGER;", "  z : OPTIONAL INTEGER;",
@@ -200,7 +201,7 @@ def rich_schema(r, k, trees):
     for i, t in enumerate(trees):
         L.append("  wr_%d : %s;" % (i, src_tree(t) if t[0] != "a" or t[1] in ("p", "q", "TRUE", "FALSE") else "(%s >= 0)" % t[1]))
     L += ["  SIZEOF (QUERY (v <* vals | v > x)) >= 0;", "  wr_in : x IN vals;", "  wr_like : nm LIKE 'a*';", "  wr_idx : vals[1] + vals[2] > 0;",
-          "  wr_exists : EXISTS (z) OR (NVL (z, 0) = 0);", "END_ENTITY;", ""]
+          "  wr_exists : EXISTS (z) OR (NVL (z, 0) = 0);", "  wr_eqr : p = (q = TRUE);", "  wr_eql : (p = q) = TRUE;", "  wr_sub : x - (y - z) > 0;", "END_ENTITY;", ""]
     L += ["ENTITY left_e", "  SUBTYPE OF (base_e);", "  l : colour;", "WHERE", "  wl : SELF\\base_e.x > 0;", "END_ENTITY;", "",
           "ENTITY right_e", "  SUBTYPE OF (base_e);", "  rr : REAL;", "END_ENTITY;", "",
           "ENTITY extra_e", "  SUBTYPE OF (base_e);", "  other : base_e;", "INVERSE", "  back : SET [0:?] OF holder_e FOR item;", "END_ENTITY;", "",
@@ -215,6 +216,18 @@ def rich_schema(r, k, trees):
     L += ["RULE r_one FOR (base_e);", "  LOCAL", "    cnt : INTEGER := 0;", "  END_LOCAL;", "  cnt := SIZEOF (base_e);", "WHERE", "  wr1 : cnt >= 0;", "  cnt < 1000000;", "END_RULE;", ""]
     L += ["END_SCHEMA;"]
     return name, "\n".join(L) + "\n"
+
+
+def _balanced(ts):
+    d = 0
+    for t in ts:
+        if t == "(":
+            d += 1
+        elif t == ")":
+            d -= 1
+            if d < 0:
+                return False
+    return d == 0
 
 
 def main(tier, seed):
@@ -348,6 +361,18 @@ def main(tier, seed):
         printed = roundtrip("r%d" % k, text, lengths, "rich")
         if printed is None:
             continue
+        # parentheses that are not redundant must survive
+        for lab, want in (("wr_eqr", ["p", "=", "(", "q", "=", "true", ")"]),
+                          ("wr_sub", ["(", "x", "-", "(", "y", "-", "z", ")", ")", ">", "0"])):
+            m = re.search(r"\b%s\s*:(.*?);" % lab, printed, re.S)
+            got = tokens(m.group(1), True) if m else []
+            while len(got) >= 2 and got[0] == "(" and got[-1] == ")" and _balanced(got[1:-1]):
+                got = got[1:-1]
+            evals += 1
+            if got != want:
+                oracle_fail += 1
+                res.violation("exppp prints rule %s as '%s': the grouping of the source '%s' is lost" % (lab, " ".join(got), " ".join(want)),
+                              {"input_file": save("c07-rich-%d.exp" % k, text)})
         # model: printed form of each wr_<i> vs ExpPP.v
         for i, t in enumerate(trees):
             m = re.search(r"\bwr_%d\s*:(.*?);" % i, printed, re.S)
